@@ -38,12 +38,14 @@ Fixpoint val_text (v : val) (acc : bytes) : bytes :=
   end.
 
 (* ---- parsing -------------------------------------------------------------------- *)
+(* List.rev is quadratic; tokens can be tens of thousands of characters long *)
+Definition frev {A} (l : list A) : list A := rev_append l [].
 Fixpoint tokens (bs : bytes) (cur : bytes) (acc : list bytes) : list bytes :=
   match bs with
-  | [] => rev (match cur with [] => acc | _ => rev cur :: acc end)
+  | [] => frev (match cur with [] => acc | _ => frev cur :: acc end)
   | b :: r =>
       if (Zb b =? 32) || (Zb b =? 10) || (Zb b =? 13) || (Zb b =? 9)
-      then tokens r [] (match cur with [] => acc | _ => rev cur :: acc end)
+      then tokens r [] (match cur with [] => acc | _ => frev cur :: acc end)
       else tokens r (b :: cur) acc
   end.
 
@@ -91,7 +93,7 @@ with parse_seq (fuel : nat) (toks : list bytes) (acc : list val) (close : Z) : o
     match toks with
     | [] => None
     | t :: r =>
-        if is1 t close then Some (rev acc, r)
+        if is1 t close then Some (frev acc, r)
         else match parse_val f toks with
              | Some (v, r') => parse_seq f r' (v :: acc) close
              | None => None
